@@ -377,23 +377,23 @@ def _topologies():
   return out
 
 
-def random_dag(rng, n_ops, idx):
+def random_dag(rng, n_ops, idx, sfx='', mb=None, build=True):
   """A random DAG over a representative kind table (weights+bias, fixed
   range, same-as-input, same-as-output, binary elementwise, unsupported op,
   two outputs), every tensor of shape (1, 2k); random set of graph outputs that
   contains the sinks."""
-  mb = skeletons.ModelBuilder()
-  g = mb.subgraph()
-  avail = [g.input('x', (1, 2))]
+  mb = mb or skeletons.ModelBuilder()
+  g = mb.subgraph('g' + sfx)
+  avail = [g.input('x' + sfx, (1, 2))]
   if rng.random() < 0.5:
-    avail.append(g.input('z', (1, 2)))
+    avail.append(g.input('z' + sfx, (1, 2)))
   consumed = set()
   kinds = ['FC', 'TANH', 'LOGISTIC', 'SOFTMAX', 'RESHAPE', 'CONCAT', 'ADD',
            'MUL', 'RELU', 'SPLIT', 'GELU', 'MEAN']
   for k in range(n_ops):
     kind = kinds[int(rng.integers(len(kinds)))]
     a = avail[int(rng.integers(len(avail)))]
-    nm = f't{k}'
+    nm = f't{k}{sfx}'
     if kind == 'FC':
       outs = [g.fc(a, nm, units=2, bias=bool(rng.integers(2)))]
     elif kind in ('TANH', 'LOGISTIC', 'SOFTMAX', 'RELU', 'GELU'):
@@ -424,7 +424,7 @@ def random_dag(rng, n_ops, idx):
   rng.shuffle(outs)
   for t in outs:
     g.output(t)
-  return mb.build()
+  return mb.build() if build else g
 
 
 def random_dag_family(seed, n):
@@ -432,7 +432,7 @@ def random_dag_family(seed, n):
   rng = _np.random.default_rng(seed)
   fam = {}
   for i in range(n):
-    n_ops = int(rng.integers(2, 5))
+    n_ops = int(rng.integers(2, 6))
     try:
       fam[f'dag{seed}_{i}_{n_ops}ops'] = random_dag(rng, n_ops, i)
     except Exception:  # pylint: disable=broad-except
@@ -441,7 +441,7 @@ def random_dag_family(seed, n):
 
 
 _CACHE = {}
-N_RANDOM_DAGS = 240
+N_RANDOM_DAGS = 1200
 
 
 def skeleton_family(tier, seed=None):
@@ -724,6 +724,13 @@ def concrete_qsvs(model, stats):
     qsvs[name] = {'min': np.full(shp, mn, np.float32),
                   'max': np.full(shp, mx, np.float32)}
   return qsvs
+
+
+def model_bytes_of(skel, tier='thorough'):
+  """Skeleton bytes by name (curated family or seeded random DAG)."""
+  if skel.startswith('dag'):
+    return skeleton_family('thorough_dags', int(skel[3:].split('_')[0]))[skel]
+  return skeleton_family(tier)[skel]
 
 
 def replay_public(skel, rname, stats, tier='thorough'):
